@@ -122,7 +122,9 @@ class Harness:
                 nswaps[0] += 1
                 return SymInt(old), SymInt(self.symlen())
 
-        bdd = Abs({nm: i for i, nm in enumerate(start)})
+        # declared in alphabetical order, levelled as `start`: the declaration order differs from the
+        # level order in every start order but one (as after any earlier reordering)
+        bdd = Abs({nm: start.index(nm) for nm in sorted(start)})
         bdd._collected = False
         n0 = SIZE(start)
         target = pairs = None
@@ -153,9 +155,7 @@ class Harness:
                 bdd._collected = True
                 ret = B._shift(bdd, target[0], target[1], bdd._levels())
             else:
-                abdd = self.A.BDD.__new__(self.A.BDD)
-                abdd._bdd = bdd
-                abdd.vars = bdd.vars
+                abdd = base.make_autoref(self.A, bdd)
                 if kind == 'autoref_sift':
                     abdd.reorder()
                 else:
@@ -232,7 +232,7 @@ def replay(case):
             self._collected = True
             return old, len(self)
 
-    bdd = Abs({nm: i for i, nm in enumerate(start)})
+    bdd = Abs({nm: start.index(nm) for nm in sorted(start)})
     bdd._collected = False
     n0 = sizes.get(''.join(start), 1)
     target, pairs = case['target'], case['pairs']
